@@ -408,6 +408,11 @@ def run(chk, P):
     P._effects = E
     pagestate.page_valid(chk, P, E, 'R03.9')
     chk.floor('R03.9', 20)
+    chk.rule('R03.10', 'per-link tables are not indexed by the link counter of a streaming handle (one table entry, counter grows '
+             'with every link played): same obligations as C09 R09.11')
+    from rules import c09
+    c09.r09_11(common.Proxy(chk, 'R03.10'), P, rule='R03.10')
+    chk.floor('R03.10', 5)
     r03_3(chk, P)
     chk.floor('R03.3', 10)
     chk.rule('R03.4', 'failed opens store NULL into vf->datasource before ov_clear on every path; the close callback has one '
